@@ -127,6 +127,21 @@ def run(tier):
         # live, every arena destroyed exactly once unless it is the one the returned value owns
         if AT.run_stream(rep, rng, cfg, docs, "ledger-trace", cap=0, faults=False, opts_fn=lambda d, b: [0, 1, 9]):
             found = True
+        # "nothing is leaked or freed twice on ANY path": the paths that only a refused request opens.  Every request of a small corpus of documents
+        # that hold raw-heap temporaries (text-block line records and their array incl. its growth at 16 / 32 lines, long float literals, the duplicate
+        # check's scratch arrays above 16 and above 1000 elements, the line index of the error path) is failed alone and from there on; outcome and
+        # event trace must be the model's, every trace must balance in the independent ledger, and the sanitised build must stay silent (double free)
+        fdocs = [b"[1 2", b"{:a}", b"#{1 1}", b"\n\n\n)", b"[" + b" ".join(b"%d" % i for i in range(20)) + b"]", b"#{" + b" ".join(b"%d" % i for i in range(18)) + b"}",
+                 b"#{" + b" ".join(b":k%d" % i for i in range(1003)) + b"}", b"{" + b" ".join(b"\"k%d\\n\" %d" % (i, i) for i in range(18)) + b"}",
+                 b"[0." + b"1" * 600 + b"]", b"0." + b"1" * 600 + b" x]", b"[1 2 \n" * 70 + b"}"]
+        if cfg in ("exp", "both"):
+            for nl in (1, 3, 15, 16, 17, 20, 33):
+                blk = b'"""\n' + b"".join(b"  line %02d\n" % i for i in range(nl)) + b'  """'
+                fdocs += [blk, b"[1 " + blk + b" 2]", b"[" + b" ".join(b"%d" % i for i in range(17)) + b" " + blk + b"]", b"#{" + blk + b" \" line 00\\n\"}", blk[:-3]]
+        if cfg in ("clj", "both"):
+            fdocs += [b"^{\"a\\n\" 1} ^{\"a\n\" 2} x", b"#:p{:a 1 b 2 :_/c 3}", b"^:a ^[x y] ^\"s\" ^T sym"]
+        if AT.run_stream(rep, C.rng("C15/faults/" + cfg), cfg, fdocs, "ledger-trace-under-faults", cap=(40 if tier == "quick" else 100000), opts_fn=lambda d, b: [0]):
+            found = True
         # registry destroyed before the values are dumped and freed
         zl = ["Z 0 %s" % C.hexs(d) for d in docs[:150]] + ["Z 0 %s" % C.hexs(b"[#ext 1 #id [1 2] #inst \"x\" #my/id {:a #ext 2}]")]
         rl = ["R 8 %s" % C.hexs(d) for d in docs[:150]] + ["R 8 %s" % C.hexs(b"[#ext 1 #id [1 2] #inst \"x\" #my/id {:a #ext 2}]")]
